@@ -173,12 +173,16 @@ __CPROVER_assert(Tol >= 0, "the tolerance is a number >= 0");
 //@ loop CovMat_cholDec 2
 __CPROVER_assigns(row, B, p, k, n, l, q, pivot, gv_exc, gv_wrow, __CPROVER_object_whole(REP(self)))
 __CPROVER_loop_invariant(1 <= row && row <= N + 1 && SAME(B, REP(self)) && OFF(B) == OFF(REP(self)) + FSZ * TAB(row) &&
-                         gv_exc == 0 && ((1 <= gv_k0 && gv_k0 < row) ==> REP(self)[TAB(gv_k0)] > Tol))
+                         gv_exc == 0 && 0 <= TAB(row) && TAB(row) <= TAB(N + 1) &&
+                         ((1 <= gv_k0 && gv_k0 < row) ==>
+                          (0 <= TAB(gv_k0) && TAB(gv_k0) < TAB(row) && REP(self)[TAB(gv_k0)] > Tol)))
 __CPROVER_decreases((long)N + 1 - row)
 //@ head CovMat_cholDec 2
 GV_ANCHOR(B, REP(self) + TAB(row));
 gv_wrow = row;
-#ifndef CVP_OUTLINE
+#ifdef CVP_OUTLINE
+CVP_USE_STEP(N, W, row);
+#else
 CVP_ROW_ENTRY(B)
 #endif
 //@ at CovMat_cholDec rowbody_begin
